@@ -502,6 +502,24 @@ func txnRandom(r *core.Run, hk int, flavour string) (Action, []Action) {
 		return t
 	}
 	n1, n2 := sizes[rng.Intn(len(sizes))], sizes[rng.Intn(len(sizes))]
+	if flavour == "fail" && hk%8 == 3 {
+		// a COMMIT that fails after several output buffers of the file have been produced (the text Shift_JIS cannot spell
+		// comes last in a table of more than 4 KiB), a session that goes on, a much shorter table, and COMMIT again
+		n1 = 900 + rng.Intn(300)
+		init := Action{"disk": map[string]jtable{"f1": mkT(n1), "f2": mkT(3), "f3": {Cols: []string{}, Rows: [][]int{}, Absent: true}}}
+		acts := []Action{txnA("setenc", "f1", 0, 0), txnA("inserth", "f1", n1+1, 0), txnA("update", "f2", 1, 0), txnA("commit", "", 0, 0),
+			txnA("disk", "f1", 0, 0), txnA("disk", "f2", 0, 0)}
+		if rng.Intn(2) == 0 {
+			acts = append(acts, txnA("delete", "f1", 0, 0))
+		} else {
+			for k := 0; k < 3; k++ {
+				acts = append(acts, txnA("delete", "f1", 1+rng.Intn(5), 0))
+			}
+			acts = append(acts, txnA("delete", "f1", n1+1, 0))
+		}
+		acts = append(acts, txnA("select", "f1", 0, 0), txnA("commit", "", 0, 0), txnA("disk", "f1", 0, 0), txnA("disk", "f2", 0, 0), txnA("select", "f1", 0, 0))
+		return init, acts
+	}
 	init := Action{"disk": map[string]jtable{"f1": mkT(n1), "f2": mkT(n2), "f3": {Cols: []string{}, Rows: [][]int{}, Absent: true}}}
 	tabs := []string{"f1", "f1", "f2", "tt", "f3"}
 	var acts []Action
@@ -611,7 +629,6 @@ func txnRandom(r *core.Run, hk int, flavour string) (Action, []Action) {
 		}
 	}
 	acts = append(acts, txnA("commit", "", 0, 0), txnA("disk", "f1", 0, 0), txnA("disk", "f2", 0, 0), txnA("disk", "f3", 0, 0))
-	_ = hk
 	return init, acts
 }
 
